@@ -107,8 +107,30 @@ func shapeInts(s shape, rsv uint32) (ws []uint64, ninf, nhops int, ok bool, inco
 	return
 }
 
+// intsTerm prints integers as a list of short lists (coqc parses long flat list literals slowly).
 func intsTerm(ws []uint64) string {
+	var chunks []string
+	for i := 0; i < len(ws); i += 32 {
+		chunks = append(chunks, flatInts(ws[i:min(i+32, len(ws))]))
+	}
+	return vgen.List(chunks)
+}
+
+func flatInts(ws []uint64) string {
 	return vgen.ListOf(ws, func(w uint64) string { return fmt.Sprintf("%d%%uint63", w) })
+}
+
+// walkInts packs CurrINF values (saturated at 3) two bits each, thirty per integer.
+func walkInts(vs []uint64) []uint64 {
+	var ws []uint64
+	for i := 0; i < len(vs); i += 30 {
+		var w uint64
+		for k := 0; k < 30 && i+k < len(vs); k++ {
+			w |= min(vs[i+k], 3) << (2 * k)
+		}
+		ws = append(ws, w)
+	}
+	return ws
 }
 
 // walk starts at hop 0 and advances with IncPath until it fails.
@@ -532,7 +554,7 @@ func main() {
 			}
 			res := sres[i]
 			run.Add("walk", vgen.App("Meta.CWalk", vgen.N(uint64(s.s0)), vgen.N(uint64(s.s1)), vgen.N(uint64(s.s2)),
-				vgen.NList(res.walk)), fmt.Sprint(s), res.ninf >= 2,
+				vgen.N(uint64(len(res.walk))), flatInts(walkInts(res.walk))), fmt.Sprint(s), res.ninf >= 2,
 				map[string]any{"seglen": []uint32{s.s0, s.s1, s.s2}, "impl": res.walk})
 		})
 	}
